@@ -66,6 +66,8 @@ int main(int argc, char **argv) {
   std::string scratch = argv[3];
   long start = argc > 4 ? atol(argv[4]) : 0;
   long cpu_s = argc > 5 ? atol(argv[5]) : 20;
+  bool logpasses = argc > 6 && std::string(argv[6]).find('p') != std::string::npos;
+  std::string passes;
   signal(SIGVTALRM, on_alarm);
   std::string line;
   std::string binpath = scratch + "/asm_case.bin";
@@ -78,6 +80,19 @@ int main(int argc, char **argv) {
     std::string status = "ok", diag, listing;
     bool located = false;
     unlink(binpath.c_str());
+    passes.clear();
+    if (logpasses) {
+      hexasm::verifPassObserver = [&](const std::vector<std::unique_ptr<hexasm::Directive>> &prog, bool placeOnly, bool changed, int total) {
+        passes += (passes.empty() ? "" : ",");
+        passes += "{\"po\":" + std::string(placeOnly ? "1" : "0") + ",\"ch\":" + (changed ? "1" : "0") + ",\"total\":" + std::to_string(total) + ",\"d\":[";
+        bool first = true;
+        for (auto &d : prog) {
+          passes += (first ? "" : ","); first = false;
+          passes += "[" + std::to_string(d->getByteOffset()) + "," + std::to_string(d->getSize()) + "," + std::to_string(d->getValue()) + "]";
+        }
+        passes += "]}";
+      };
+    } else hexasm::verifPassObserver = nullptr;
     try {
       hexasm::Lexer lexer;
       hexasm::Parser parser(lexer);
@@ -112,7 +127,9 @@ int main(int argc, char **argv) {
     // debug tables as raw bytes (parsed on the spec side of C15)
     fprintf(g_out, "],\"dbg\":[");
     for (size_t i = imgEnd; i < bin.size(); i++) fprintf(g_out, "%s%d", i > imgEnd ? "," : "", (int)(unsigned char)bin[i]);
-    fprintf(g_out, "],\"listing\":\"%s\"}\n", jesc(listing).c_str());
+    fprintf(g_out, "],\"listing\":\"%s\"", jesc(listing).c_str());
+    if (logpasses) fprintf(g_out, ",\"passes\":[%s]", passes.c_str());
+    fprintf(g_out, "}\n");
   }
   fclose(g_out);
   return 0;
